@@ -1,5 +1,6 @@
 import FcpptModel.Spec.C07
 import FcpptProofs.C07.Finish
+import FcpptProofs.C07.Extra
 /-!
 # C07 — property theorems
 
@@ -129,6 +130,109 @@ theorem comparison_spec {st : St} {ss : SSt} (G : GInv st ss) (r s : Nat) :
   · have : ss.vec r ≠ ss.vec s := fun he => hl (by rw [← (G.vec r).1, ← (G.vec s).1, he])
     simp [hl, this]
 
+/-! ## returned references -/
+
+/-- `v[i]`, `*(begin() + i)`, `data()[i]`, `front()`, `back()` after every valid history: defined exactly when std::vector's
+accessor is (`accIdx`), and the reference designates the element std::vector's reference designates. Storing through it is
+`VOp.assign`, covered by `step_ok`. -/
+theorem references_spec {st : St} {ss : SSt} (G : GInv st ss) (r : Nat) (a : Acc) (i : Nat) (hi : accIdx (ss.vec r) a = some i) :
+    ∃ x, (ss.vec r)[i]? = some x ∧ readRef st.heap (st.vec r) a = .ok x :=
+  readRef_spec (G.vec r) a i hi
+
+/-- storing through a returned reference changes that element and nothing else (also no other register: `Frame`) -/
+theorem reference_store_spec {h : Heap} {v : RV} {l : List Int} (hwf : HeapWf h) (ho : Owns h v l) (a : Acc) (x : Int) (i : Nat)
+    (hi : accIdx l a = some i) :
+    ∃ h', writeRef h v a x = .ok h' ∧ Owns h' v (l.set i x) ∧ Frame h v.base h' v.base :=
+  writeRef_spec hwf ho a x i hi
+
+/-! ## capacity and reallocation -/
+
+/-- the code's growth policy at least doubles -/
+theorem growth_doubles : Geo growth := fun n c => by
+  show 2 * c ≤ max n (c * 2)
+  have := Nat.le_max_right n (c * 2)
+  omega
+
+/-- Capacity and storage identity of every valid single-vector operation, for every growth policy `g` with `n ≤ g n c`:
+the capacity never decreases except by `shrink_to_fit`, which makes it exactly the size; `reserve(n)` makes it at least `n`;
+the storage (hence every iterator / reference into it) stays the same **iff** the new size fits into the old capacity
+(for `reserve`: iff `n` does), and then the capacity is unchanged too; under a doubling policy (`growth_doubles`) a
+capacity that changes at least doubles. -/
+theorem capacity_and_reallocation (g : Nat → Nat → Nat) (hg : ∀ n c, n ≤ g n c) {h : Heap} {v : RV} {l : List Int}
+    (hwf : HeapWf h) (ho : Owns h v l) (o : VOp) (l' : List Int) (ret : Option Nat) (hs : svstep l o = some (l', ret)) :
+    ∃ h' v', vstep g h v o = .ok (h', v', ret) ∧ Owns h' v' l' ∧
+      match o with
+      | .shrink => v'.cap = l'.length
+      | .reserve n => n ≤ v'.cap ∧ v.cap ≤ v'.cap ∧ (v'.base = v.base ↔ n ≤ v.cap) ∧ (v'.base = v.base → v'.cap = v.cap) ∧
+          (Geo g → v'.cap = v.cap ∨ 2 * v.cap ≤ v'.cap)
+      | _ => v.cap ≤ v'.cap ∧ (v'.base = v.base ↔ l'.length ≤ v.cap) ∧ (v'.base = v.base → v'.cap = v.cap) ∧
+          (Geo g → v'.cap = v.cap ∨ 2 * v.cap ≤ v'.cap) := by
+  obtain ⟨h', v', he, ho', _⟩ := vstep_spec g hg hwf ho o l' ret hs
+  have hc := vstep_capacity g hg hwf ho o l' ret hs he
+  have hlt := ho.base_lt hwf
+  have hl' := ho'.1
+  have gen : Fits g h v v' → v.cap ≤ v'.cap ∧ (v'.base = v.base ↔ l'.length ≤ v.cap) ∧ (v'.base = v.base → v'.cap = v.cap) ∧
+      (Geo g → v'.cap = v.cap ∨ 2 * v.cap ≤ v'.cap) := fun f => by
+    have := f.facts hlt
+    rw [hl']; exact this
+  refine ⟨h', v', he, ho', ?_⟩
+  cases o with
+  | shrink => simp only [CapSpec] at hc ⊢; omega
+  | reserve n =>
+    simp only [CapSpec] at hc ⊢
+    obtain ⟨_, hc⟩ := hc
+    rcases hc with ⟨a1, a2, a3⟩ | ⟨a1, ⟨b, ab, abn⟩, a3, a4, a5⟩
+    · exact ⟨by omega, by omega, ⟨fun _ => a1, fun _ => a2⟩, fun _ => a3, fun _ => Or.inl a3⟩
+    · have hne : v'.base ≠ v.base := by
+        intro heq
+        have := hlt b (by rw [← heq]; exact ab)
+        omega
+      exact ⟨a3, a4, ⟨fun heq => absurd heq hne, fun hle => by omega⟩, fun heq => absurd heq hne, fun hg2 => Or.inr (a5 hg2)⟩
+  | pushBack s => exact gen hc
+  | popBack => exact gen hc
+  | insert1 pos s => exact gen hc
+  | insertN pos n s => exact gen hc
+  | insertRange pos xs fwd => exact gen hc
+  | erase1 pos => exact gen hc
+  | eraseR a b => exact gen hc
+  | resize n s => exact gen hc
+  | clear => exact gen hc
+  | assign a x => exact gen hc
+
+/-- `resize_write_area(n)` of a buffer keeps the storage iff `n` cells fit behind the read area -/
+theorem buffer_reallocation {g : Nat → Nat → Nat} {st : St} {ss : SSt} (G : GInv st ss) (k n : Nat) {h' : Heap} {b' : Buf}
+    (he : Buf.resizeWriteArea g st.heap (st.buf k) n = .ok (h', b')) :
+    (b'.base = (st.buf k).base ↔ n ≤ (st.buf k).cap - (st.buf k).readEnd) ∧ b'.readEnd = (st.buf k).readEnd ∧
+      b'.writeEnd = (st.buf k).readEnd + n :=
+  resizeWriteArea_inplace_iff G.ledger.wf (G.buf k) he
+
+/-- `buffer[i]` is the i-th element of the read area -/
+theorem buffer_index_spec {st : St} {ss : SSt} (G : GInv st ss) (k i : Nat) (hi : i < (ss.buf k).1.length) :
+    Buf.index st.heap (st.buf k) i = .ok (ss.buf k).1[i] :=
+  Buf.index_spec (G.buf k) i hi
+
+/-! ## derived comparison operators, dynamic_array -/
+
+/-- comparison.hpp `!= > >= <=` as defined there from `==` and `<`: negated equality, the flipped order, and
+`<=` / `>=` are "less or equal" / "greater or equal" of the lexicographic order (`lexLt_total`) -/
+theorem comparison_derived_spec {st : St} {ss : SSt} (G : GInv st ss) (r s : Nat) :
+    neV st.heap (st.vec r) (st.vec s) = .ok (!(ss.vec r == ss.vec s)) ∧
+    gtV st.heap (st.vec r) (st.vec s) = .ok (lexLt (ss.vec s) (ss.vec r)) ∧
+    leV st.heap (st.vec r) (st.vec s) = .ok (lexLt (ss.vec r) (ss.vec s) || ss.vec r == ss.vec s) ∧
+    geV st.heap (st.vec r) (st.vec s) = .ok (lexLt (ss.vec s) (ss.vec r) || ss.vec s == ss.vec r) := by
+  obtain ⟨h1, h2⟩ := comparison_spec G r s
+  obtain ⟨_, h4⟩ := comparison_spec G s r
+  refine ⟨by simp [neV, h1], by simp [gtV, h4], ?_, ?_⟩
+  · simp only [leV, gtV, h4, ok_bind, pure_eq_ok]; rw [lexLt_total]
+  · simp only [geV, h2, ok_bind, pure_eq_ok]; rw [lexLt_total]
+
+/-- `dynamic_array<T>(n)`: `size()` and `data_end() - data()` are `n`, what is stored through `data()` inside the array is read
+back, the destructor returns the allocation with the size it was allocated with: afterwards the heap is as before. -/
+theorem dynamic_array_roundtrip {h : Heap} (hwf : HeapWf h) (n : Nat) (xs : List Int) (hx : xs.length ≤ n) :
+    ∃ h', dynRoundTrip h n xs = .ok (h', n, n, xs) ∧ (∀ i, h'.slot i = h.slot i) :=
+  let ⟨h', he, hs, _⟩ := dynRoundTrip_spec hwf n xs hx
+  ⟨h', he, hs⟩
+
 /-! ## non-vacuity: the hypotheses are satisfiable by non-trivial histories -/
 
 /-- a valid history with an aliased in-place insert, an input-range insert, erase, swap, move, a buffer conversion -/
@@ -148,6 +252,40 @@ example :
         let a ← toList st.heap (st.vec 2)
         let b ← toList st.heap (st.vec 1)
         pure (a, b, st.heap.liveCount)) = Except.ok ([2, 1, 2, 2, 2, 3], [5, 6, 9], 2) := by rfl
+
+/-- the operations added later are valid for the specification and run in the model: stores through `v[i]` / `front()` / `back()`,
+self-move-assignment of a vector and of a buffer, `read_from_opt` with a succeeding and a failing source, conversion of a
+released buffer -/
+example :
+    (srunAll SSt.init
+      [.ctor 0 (.il [1, 2, 3]), .v 0 (.assign (.index 1) 7), .v 0 (.assign .front 8), .v 0 (.assign .back 9), .moveAssign 0 0,
+       .breadOpt 0 4 (some [5, 6]), .bmoveAssign 0 0, .breadOpt 1 3 none, .ctorBuf 1 0, .ctorBuf 2 0]).map
+      (fun s => (s.vec 0, s.vec 1, s.vec 2, s.buf 0, s.buf 1)) = some ([8, 7, 9], [5, 6], [], ([], 0), ([], 0)) := by rfl
+
+example :
+    (do let st ← runAll growth St.init
+          [.ctor 0 (.il [1, 2, 3]), .v 0 (.assign (.index 1) 7), .v 0 (.assign .front 8), .v 0 (.assign .back 9), .moveAssign 0 0,
+           .breadOpt 0 4 (some [5, 6]), .bmoveAssign 0 0, .breadOpt 1 3 none, .ctorBuf 1 0, .ctorBuf 2 0]
+        let a ← toList st.heap (st.vec 0)
+        let b ← toList st.heap (st.vec 1)
+        let x ← readRef st.heap (st.vec 0) .back
+        pure (a, b, x, (st.vec 1).cap, st.heap.liveCount)) = Except.ok ([8, 7, 9], [5, 6], 9, 4, 2) := by rfl
+
+/-- `capacity_and_reallocation` at work: after `reserve(10)`, `clear()` and three `push_back`s keep the storage (same block,
+capacity 10); `shrink_to_fit` then makes the capacity 3; the next `push_back` at least doubles it -/
+example :
+    (do let a ← construct growth Heap.empty (.il [1, 2, 3])
+        let b ← reserve growth a.1 a.2 10
+        let c ← clear b.1 b.2
+        let d ← pushBack growth c.1 c.2 (.val 4)
+        let e ← pushBack growth d.1 d.2 (.slot 0)
+        let f ← pushBack growth e.1 e.2 (.val 5)
+        let s ← shrinkToFit f.1 f.2
+        let p ← pushBack growth s.1 s.2 (.val 6)
+        pure (b.2.base == f.2.base, f.2.cap, s.2.cap, p.2.cap)) = Except.ok (true, 10, 3, 6) := by rfl
+
+/-- `dynamic_array_roundtrip`, evaluated -/
+example : (dynRoundTrip Heap.empty 4 [7, 8]).map (fun r => (r.2, r.1.liveCount)) = Except.ok ((4, 4, [7, 8]), 0) := by rfl
 
 /-! ## the two repaired defects: the old behaviour violates the specification -/
 
